@@ -969,7 +969,11 @@ class BytePairEncodingVectorizer(BaseEstimator, TransformerMixin):
                 data.extend([1 for i in range(row.shape[0])])
                 indptr.append(len(indices))
 
-            result = scipy.sparse.csr_matrix((data, indices, indptr), dtype=np.float32)
+            result = scipy.sparse.csr_matrix(
+                (data, indices, indptr),
+                shape=(len(indptr) - 1, len(self.column_label_dictionary_)),
+                dtype=np.float32,
+            )
             result.sum_duplicates()
 
             return result
@@ -1039,11 +1043,21 @@ class BytePairEncodingVectorizer(BaseEstimator, TransformerMixin):
             indptr = [0]
 
             for row in encodings:
-                indices.extend([self.column_label_dictionary_[x] for x in row])
-                data.extend([1 for i in range(row.shape[0])])
+                # codes that did not occur in the training encodings have no column
+                known_codes = [
+                    self.column_label_dictionary_[x]
+                    for x in row
+                    if x in self.column_label_dictionary_
+                ]
+                indices.extend(known_codes)
+                data.extend([1 for i in range(len(known_codes))])
                 indptr.append(len(indices))
 
-            result = scipy.sparse.csr_matrix((data, indices, indptr), dtype=np.float32)
+            result = scipy.sparse.csr_matrix(
+                (data, indices, indptr),
+                shape=(len(indptr) - 1, len(self.column_label_dictionary_)),
+                dtype=np.float32,
+            )
             result.sum_duplicates()
 
             return result
